@@ -10,7 +10,7 @@ from sa import sx as sxm
 from sa.algebra import Rat
 from sa.facts import positive_atoms
 from sa.match import SpecCtx, match_cases
-from sa.sx import SX, Q, N
+from sa.sx import SX, Q, N, CannotDecide
 
 SYMS = {
     'Tmax': 'self.maximum_torque', 'w': 'self.angular_speed', 'w0': 'self.no_load_speed', 'D': 'self.pwm',
@@ -60,6 +60,16 @@ def check(model, rep):
                 'the dead-zone boundary, term) is matched by guard compatibility; mirror symmetry and '
                 'continuity are decided as polynomial identities of the extracted terms. '
                 'Decides the code shape of the law, not floating-point behaviour at the boundary.')
+    # the laws must be functions of the present motor constants, speed and duty cycle only
+    from sa.extract import purity_scan
+    impure = False
+    for meth, allowed in (('compute_torque', ('driving_torque',)), ('compute_electric_current', ('electric_current',))):
+        mm = model.member('DCMotor', meth)
+        bad = purity_scan(model, 'DCMotor', mm.node, allowed)
+        rep.decide(not bad, 'C08.pure', f'DCMotor.{meth}',
+                   f'the law is not a pure function of the motor state: it {bad[0][1] if bad else ""} - a value remembered from another '
+                   f'evaluation (or another motor) can be returned', loc=f'{mm.module}:{bad[0][0] if bad else mm.node.lineno}')
+        impure = impure or bool(bad)
     sx = SX(model)
     pos = positive_atoms(sx, 'DCMotor')
     sxm.POSITIVE_ATOMS.clear()
@@ -72,7 +82,12 @@ def check(model, rep):
     for meth, suffix, table, rule in (('compute_torque', '__driving_torque', TORQUE_SPEC, 'C08.law.torque'),
                                       ('compute_electric_current', '__electric_current', CURRENT_SPEC,
                                        'C08.law.current')):
-        m, paths, others = extract(sx, model, meth, suffix)
+        try:
+            m, paths, others = extract(sx, model, meth, suffix)
+        except CannotDecide as e:
+            if impure:
+                continue        # already reported as C08.pure; the memoising rewrite is outside the evaluator's idioms
+            raise
         rep.inspect(len(paths) + len(others))
         for o, why in others:
             rep.violation(rule, f'DCMotor.{meth}[exit@{o.loc}]', f'a path through the method {why} '
@@ -98,8 +113,11 @@ def check(model, rep):
                        '(a symbolic unit factor does not cancel)', loc=f'{m.module}:{ln}',
                        extracted=show(pv)[:300])
         laws[meth] = (m, paths)
-    rep.require('C08.law.torque', 5, 'five specified torque cases')
-    rep.require('C08.law.current', 4, 'four specified current cases')
+    if not impure:
+        rep.require('C08.law.torque', 5, 'five specified torque cases')
+        rep.require('C08.law.current', 4, 'four specified current cases')
+    if impure and len(laws) < 2:
+        return
 
     # ---- mirror symmetry and continuity on the extracted terms
     def pick(meth, guard_expr):
@@ -154,8 +172,9 @@ def check(model, rep):
                        'with the torque law substituted, the outer-branch current at |D| = i0/imax is not '
                        'the dead-zone value D*imax = +-i0', loc=m.loc,
                        extracted=f'i(+lim)={show(N(i_pos))[:120]}; i(-lim)={show(N(i_neg))[:120]}')
-    rep.require('C08.mirror', 2)
-    rep.require('C08.continuity', 2)
+    if not impure:
+        rep.require('C08.mirror', 2)
+        rep.require('C08.continuity', 2)
     rep.analysed['methods'] = ['DCMotor.compute_torque', 'DCMotor.compute_electric_current', 'DCMotor.__init__']
     rep.analysed['positive_facts_from_ctor'] = sorted(pos)
     rep.assume('quantity operators and comparisons are unit-blind and dimensionally sound (decided by C05/C06)')
